@@ -23,6 +23,11 @@ class Unsupported(Exception):
     """The model has no encoding for this operation: the program is skipped and reported as not covered."""
 
 
+class ModelledMisalignment(Exception):
+    """pandas would have to align two differently filtered operands whose index has duplicate labels (cartesian
+    reindexing / errors).  Raised as a *candidate* failure on that path; only a concrete replay makes it a verdict."""
+
+
 class StructuralError(Exception):
     """A task failed for every input (missing / duplicated column, bad key): data-independent failure."""
 
